@@ -50,7 +50,16 @@ Definition step (async : bool) (s : pst) (e : pev) : pst * list (list Z) :=
               (* error branch: handle() raised, on_handled never runs; the threaded handler keeps what it appended *)
               (mkP (p_blk s) (if async then cs else p_changes s ++ cs) ctr', ack)
         end
-      else (s, [])     (* STATQ (sequence attribute only) or not ours *)
+      else if starts_with V_STATQ d then
+        (* a STATQ datagram: the handler only records its sequence byte (exactly one byte must follow, else the unpack raises and
+           on_handled never runs) - but on_handled DOES run afterwards and applies whatever the handler's change list still holds:
+           the last message's records in the async client (never cleared), the records left by a failed parse in the threaded one *)
+        match skipn 5 d with
+        | [_] => if async then (mkP (apply_changes (p_blk s) (p_changes s)) (p_changes s) (p_ctr s), [])
+                 else (mkP (apply_changes (p_blk s) (p_changes s)) [] (p_ctr s), [])
+        | _ => (s, [])
+        end
+      else (s, [])     (* not ours *)
   end.
 
 Fixpoint run (async : bool) (s : pst) (es : list pev) : pst * list (list (list Z)) * list (list Z) :=
